@@ -554,6 +554,9 @@ type IntervalCase struct {
 	IntervalMs int   `json:"interval_ms"`
 	OrSize     bool  `json:"or_size"`
 	GapsUs     []int `json:"gaps_us"` // sleep before each write
+	// OutageBefore > 0: before write number OutageBefore (1-based) the link is cut and the stream resumes on a new connection; the
+	// interval promise then holds for what is written afterwards (seeded change C20/m4: the policy's ticker did not survive the resume)
+	OutageBefore int `json:"outage_before,omitempty"`
 }
 
 const intervalSlack = 2 * time.Second
@@ -561,7 +564,7 @@ const intervalSlack = 2 * time.Second
 func runInterval(c IntervalCase, k *ev.Case) *ev.Failure {
 	w := sim.NewWorld()
 	defer w.Dispose()
-	conn, err := w.Connect()
+	conn, err := w.Connect(iscp.WithConnPingInterval(15*time.Millisecond), iscp.WithConnPingTimeout(1500*time.Millisecond)) // so that a cut link is noticed
 	if err != nil {
 		return ev.Failf("harness", "connect: %v", err)
 	}
@@ -577,17 +580,37 @@ func runInterval(c IntervalCase, k *ev.Case) *ev.Failure {
 		return ev.Failf("harness", "open: %v", err)
 	}
 	type wr struct {
-		el time.Duration
-		at time.Time
+		el  time.Duration
+		at  time.Time
+		pre bool // written before the outage: retransmitted after the resume, no latency promise across an outage
 	}
 	var writes []wr
+	resumed := false
 	for i, gap := range c.GapsUs {
+		if c.OutageBefore == i+1 {
+			for j := range writes {
+				writes[j].pre = true
+			}
+			w.CurrentLink().DrainThenSever(20 * time.Millisecond)
+			for dl := time.Now().Add(5 * time.Second); time.Now().Before(dl); time.Sleep(time.Millisecond) {
+				if st, inc := w.Broker.Upstream(up.ID), w.Broker.CurrentInc(); st != nil && inc.Index > 0 && st.Inc == inc.Index && !inc.Link.Dead() {
+					resumed = true
+					break
+				}
+			}
+			if !resumed {
+				ev.TimingInconclusive()
+				return nil // recovery is C05's business
+			}
+			time.Sleep(2 * time.Millisecond)
+			k.Label("interval-after-resume")
+		}
 		time.Sleep(time.Duration(gap) * time.Microsecond)
 		el := upk.Elapsed(0, i+1)
 		if err := up.WriteDataPoints(ctx, upk.DataID(i%3), &message.DataPoint{ElapsedTime: el, Payload: upk.Payload(0, i+1, 12)}); err != nil {
 			return ev.Failf("harness", "write: %v", err)
 		}
-		writes = append(writes, wr{el, time.Now()})
+		writes = append(writes, wr{el: el, at: time.Now()})
 	}
 	interval := time.Duration(c.IntervalMs) * time.Millisecond
 	// wait (without Flush/Close) until everything arrived or the bound is clearly exceeded
@@ -620,6 +643,9 @@ func runInterval(c IntervalCase, k *ev.Case) *ev.Failure {
 			return ev.Failf("C20.3 interval", "a point written %v ago was still not transmitted (interval %v, no Flush/Close)", time.Since(wrt.at).Round(time.Millisecond), interval)
 		}
 		lat := t0.Add(time.Duration(at) * time.Microsecond).Sub(wrt.at)
+		if wrt.pre {
+			continue
+		}
 		if lat > worst {
 			worst = lat
 		}
@@ -637,6 +663,9 @@ var subInterval = ev.Sub[IntervalCase]{Name: "interval", Repeats: 3, Q: 12, T: 2
 		n := rapid.IntRange(1, 8).Draw(t, "nwrites")
 		for i := 0; i < n; i++ {
 			c.GapsUs = append(c.GapsUs, rapid.IntRange(0, 4000).Draw(t, "gap"))
+		}
+		if rapid.IntRange(0, 2).Draw(t, "outage") == 0 {
+			c.OutageBefore = rapid.IntRange(1, n).Draw(t, "outagebefore")
 		}
 		return c
 	}, Run: runInterval}
